@@ -759,7 +759,7 @@ def rule_length(facts, impls):
             else:
                 ln.ok({"function": b.id, "leaves": nleaf, "delta": " or ".join(_fmt_poly(w) for w in wants), "verdict": "ok"})
     ln.require_floor(12, "sink operations summarised")
-    return [pf, wd, ln, rule_wordcount(facts, impls), rule_twoc_default(facts), rule_operand(facts, impls)]
+    return [pf, wd, ln, rule_wordcount(facts, impls), rule_twoc_default(facts), rule_operand(facts, impls), rule_default_bytes(facts)]
 
 
 def _eval_pad(rv, B, unit):
@@ -1356,3 +1356,41 @@ def rule_operand(facts, impls):
                    "verdict": "top-n mask on every row"})
     op.require_floor(4, "operand normalisations")
     return op
+
+
+# ------------------------------------------------------------------------------------------------ DEFAULT/bytes-aligned
+# The provided write_bytes_aligned is what every user-defined sink that does not override it runs (both in-memory sinks
+# do override it, so no test reaches it).  Its effect summary must be: align, then one 8-bit `write` of every element of
+# the slice, in order - nothing else, and no element skipped.
+
+def rule_default_bytes(facts):
+    from . import lib_effect as E
+    db = RuleResult("DEFAULT/bytes-aligned", "the provided write_bytes_aligned aligns and then writes every byte of the slice, "
+                                              "in order, as one 8-bit write each")
+    b = facts.bodies.get("bitsink::BitSink::write_bytes_aligned")
+    if b is None:
+        db.fail(Finding("DEFAULT/bytes-aligned", "bitsink::BitSink::write_bytes_aligned", "anchor-missing", 0, "",
+                        "provided write_bytes_aligned not found"))
+        return db
+    ectx = E.Ctx(facts)
+    try:
+        ev = E.Interp(ectx, b).run()
+    except E.Undecided as e:
+        db.fail(Finding("DEFAULT/bytes-aligned", b.id, "undecided", 0, b.loc(), "cannot summarise %s: %s" % (b.id, e)))
+        return db
+    ev = [e for e in ev if e[0] != "mark"]
+    ok = len(ev) == 2 and ev[0][0] == "align" and ev[0][1] == ("p", 1, ()) and ev[1][0] == "loop" \
+        and isinstance(ev[1][1], tuple) and ev[1][1][0] == "coll" and ev[1][1][2] == ("p", 2, ())
+    if ok:
+        body = [e for e in ev[1][2] if e[0] != "mark"]
+        ok = len(body) == 1 and body[0][0] == "w" and body[0][1] == ("p", 1, ()) and body[0][2] == ("c", 8, None) \
+            and body[0][3] == ("elem", ev[1][1][1]) and body[0][4] == "write"
+    if ok:
+        db.ok({"function": b.id, "summary": "; ".join(E.flat(ev))[:200], "verdict": "align, then write(u8) for every element"})
+    else:
+        db.fail(Finding("DEFAULT/bytes-aligned", b.id, "not-per-byte", 0, b.loc(),
+                        "the effect summary of the provided write_bytes_aligned is not `align; for b in bytes { write::<u8>(b) }` "
+                        "(got: %s): a sink that relies on the provided method is not shown to receive every byte of the slice "
+                        "exactly once and in order" % "; ".join(E.flat(ev))[:300]))
+    db.require_floor(1, "provided write_bytes_aligned")
+    return db
